@@ -299,7 +299,15 @@ def run(eng, R):
             return any(isinstance(c.func, ast.Attribute) and c.func.attr == mz and self_attr(c.func.value) == "_minimizer" and c.args and _txt(c.args[0]) == "name" for c in _calls_in(n))
 
         def rec(n, field=field, op=op):
-            return any(isinstance(c.func, ast.Attribute) and c.func.attr == op and self_attr(c.func.value) == field for c in _calls_in(n))
+            if any(isinstance(c.func, ast.Attribute) and c.func.attr == op and self_attr(c.func.value) == field for c in _calls_in(n)):
+                return True
+            # the same record written as an item store / deletion: self.<field>[name] = ... (for update), del self.<field>[name] (for pop)
+            st = n.stmt if n.kind == "stmt" else None
+            if op == "update" and isinstance(st, ast.Assign):
+                return any(isinstance(t, ast.Subscript) and self_attr(t.value) == field and _txt(t.slice) == "name" for t in st.targets)
+            if op == "pop" and isinstance(st, ast.Delete):
+                return any(isinstance(t, ast.Subscript) and self_attr(t.value) == field and _txt(t.slice) == "name" for t in st.targets)
+            return False
 
         ok1, _ = g.all_paths_pass(g.entry.id, fwd)
         ok2, _ = g.all_paths_pass(g.entry.id, rec)
